@@ -1,1 +1,296 @@
-/-! # C02 — property theorems (to be filled in) -/
+import JokerVerif.Lemmas.RejectLemmas
+import Mathlib.MeasureTheory.Measure.Lebesgue.Basic
+import Mathlib.Analysis.SpecialFunctions.Log.Basic
+import Mathlib.Analysis.SpecialFunctions.Log.ERealExp
+import Mathlib.Data.EReal.Operations
+/-!
+# C02 — the rejection step keeps prior sample `i` with probability `L_i / L_max`, unaltered
+
+Property theorems only (model: `Model/Reject.lean`, lemmas: `Lemmas/RejectLemmas.lean`).  All statements are
+for every library, every option combination, every recorded draw of the generator (`idx`, `uu`), every
+likelihood function `llf`, every `expf` — no bound on sizes.  `out` is what `Reject.rejectionSample` returns.
+-/
+set_option linter.unusedSectionVars false
+namespace Reject
+
+section Generic
+variable {α ρ : Type} [LT α] [DecidableLT α] [Sub α] [Max α]
+
+/-- Before truncation, position `p` (in evaluation order) is accepted **iff** its own uniform draw is below
+`expf (ll_p − max_j ll_j)`. -/
+theorem accept_iff (expf : α → α) (lls uu : List α) (p : Nat) :
+    p ∈ goodPos expf lls uu ↔
+      ∃ m l u, maxOf lls = some m ∧ lls[p]? = some l ∧ uu[p]? = some u ∧ u < expf (l - m) :=
+  mem_goodPos expf lls uu p
+
+/-- … and this mask, over the likelihoods of exactly the evaluated rows and one uniform per evaluated row, is
+what the sampler uses: `good` is the (truncated) mask of `allLls` against `uu`, and `allLls[t]` is the
+likelihood of library row `evalRows[t]`. -/
+theorem sample_uses_rule {expf : α → α} {llf : ρ → α} {lib : List (LibRow ρ α)} {o : Opts}
+    {idx : Option (List Nat)} {uu : List α} {out : Out ρ α}
+    (h : rejectionSample expf llf lib o idx uu = .ok out) :
+    out.good = truncate o.maxPost (goodPos expf out.allLls uu) ∧ uu.length = out.allLls.length ∧
+    gather (lib.map (fun r => llf r.nonlin)) out.evalRows = some out.allLls := by
+  obtain ⟨_, _, evRows, hev, hlen, hasm⟩ := rejectionSample_ok h
+  obtain ⟨h1, h2, h3, _, _⟩ := assemble_attached llf hev hasm
+  refine ⟨by rw [h3, h2], by rw [h2]; simpa using hlen, ?_⟩
+  rw [h1, h2, gather_map, hev]; rfl
+
+/-- A sample whose likelihood is "−∞" is never accepted: for any element `bot` absorbing under subtraction with
+`expf bot = z` and no uniform below `z` (`z = 0`, `u ≥ 0`). -/
+theorem neg_inf_never_accepted (expf : α → α) (bot z : α) (hb : ∀ m, bot - m = bot) (he : expf bot = z)
+    (lls uu : List α) (hu : ∀ u ∈ uu, ¬ u < z) (p : Nat) (hp : lls[p]? = some bot) :
+    p ∉ goodPos expf lls uu := by
+  intro hmem
+  obtain ⟨m, l, u, _, hl, hu', hc⟩ := (accept_iff expf lls uu p).mp hmem
+  rw [hp] at hl
+  simp only [Option.some.injEq] at hl
+  subst hl
+  rw [hb, he] at hc
+  exact hu u (List.mem_of_getElem? hu') hc
+
+/-- Truncation: `max_posterior_samples = k` keeps the **first** `k` accepted positions (`none`: all of them);
+`n_prior_samples = N` evaluates exactly rows `0..N−1`, or the first `N` entries of the drawn permutation. -/
+theorem truncation_first_accepted {expf : α → α} {llf : ρ → α} {lib : List (LibRow ρ α)} {o : Opts}
+    {idx : Option (List Nat)} {uu : List α} {out : Out ρ α}
+    (h : rejectionSample expf llf lib o idx uu = .ok out) :
+    (∀ k, o.maxPost = some k → out.good = (goodPos expf out.allLls uu).take k) ∧
+    (o.maxPost = none → out.good = goodPos expf out.allLls uu) ∧
+    (idx = none → out.evalRows = List.range (o.nPrior.getD lib.length)) ∧
+    (∀ ix, idx = some ix → out.evalRows = ix.take (o.nPrior.getD lib.length)) ∧
+    out.evalRows.length = o.nPrior.getD lib.length ∧ o.nPrior.getD lib.length ≤ lib.length := by
+  obtain ⟨hg, _, _⟩ := sample_uses_rule h
+  obtain ⟨hn, hol, evRows, hev, _, hasm⟩ := rejectionSample_ok h
+  obtain ⟨h1, _⟩ := assemble_attached llf hev hasm
+  refine ⟨?_, ?_, ?_, ?_, by rw [h1]; exact hol, hn⟩
+  · intro k hk; rw [hg, hk]; rfl
+  · intro hk; rw [hg, hk]; rfl
+  · intro hi; rw [h1, hi]; rfl
+  · intro ix hi; rw [h1, hi]; rfl
+
+/-- asking for more prior samples than the library holds is refused (`ValueError`) -/
+theorem too_many_prior_samples_raises (expf : α → α) (llf : ρ → α) (lib : List (LibRow ρ α)) (o : Opts)
+    (idx : Option (List Nat)) (uu : List α) (n : Nat) (hn : o.nPrior = some n) (h : lib.length < n) :
+    rejectionSample expf llf lib o idx uu = .error .value := by
+  unfold rejectionSample
+  simp [hn, h]
+
+/-- Returned rows are library rows, unmodified, in evaluation order, never duplicated or invented:
+* the nonlinear block of the returned rows is `lib[full]`, each repeated `n_linear_samples` times;
+* `full = evalRows[good]` with `good` strictly increasing positions of the evaluation order, hence `full` is a
+  sub-sequence of the evaluated rows;
+* without shuffling `full = good` is strictly increasing; with a duplicate-free permutation `full` has no
+  duplicates. -/
+theorem rows_are_library_rows {expf : α → α} {llf : ρ → α} {lib : List (LibRow ρ α)} {o : Opts}
+    {idx : Option (List Nat)} {uu : List α} {out : Out ρ α}
+    (h : rejectionSample expf llf lib o idx uu = .ok out) :
+    (∃ recs, gather lib out.full = some recs ∧ out.rows = rep o.nLinear (recs.map (·.nonlin))) ∧
+    gather out.evalRows out.good = some out.full ∧ out.good.Pairwise (· < ·) ∧
+    out.full.Sublist out.evalRows ∧
+    (idx = none → out.full = out.good ∧ out.full.Pairwise (· < ·)) ∧
+    (out.evalRows.Nodup → out.full.Nodup) := by
+  obtain ⟨hg, _, _⟩ := sample_uses_rule h
+  obtain ⟨_, _, evRows, hev, _, hasm⟩ := rejectionSample_ok h
+  obtain ⟨h1, _, h3, hfull, recs, hrecs, _, hrows, _, _⟩ := assemble_attached llf hev hasm
+  have hpw : out.good.Pairwise (· < ·) := by
+    rw [hg]; exact truncate_pairwise _ (goodPos_pairwise expf _ _)
+  have hfull' : gather out.evalRows out.good = some out.full := by rw [h1, h3]; exact hfull
+  refine ⟨⟨recs, hrecs, hrows⟩, hfull', hpw, gather_sublist _ _ _ _ rfl hpw hfull', ?_, ?_⟩
+  · intro hi
+    have : out.full = out.good := by
+      rw [h1, hi] at hfull'
+      exact gather_range_self hfull'
+    exact ⟨this, this ▸ hpw⟩
+  · intro hnd
+    exact gather_nodup hnd (pairwise_lt_nodup hpw) hfull'
+
+/-- In the valid domain the sampler does not fail: `n_prior_samples ≤ |library|`, a recorded permutation of
+valid rows of sufficient length, one uniform per evaluated row. -/
+theorem rejectionSample_total (expf : α → α) (llf : ρ → α) (lib : List (LibRow ρ α)) (o : Opts)
+    (idx : Option (List Nat)) (uu : List α) (hn : o.nPrior.getD lib.length ≤ lib.length)
+    (hidx : ∀ ix, idx = some ix → o.nPrior.getD lib.length ≤ ix.length ∧ ∀ j ∈ ix, j < lib.length)
+    (hu : uu.length = o.nPrior.getD lib.length) :
+    ∃ out, rejectionSample expf llf lib o idx uu = .ok out := by
+  have hol : (evalOrder (o.nPrior.getD lib.length) idx).length = o.nPrior.getD lib.length := by
+    cases idx with
+    | none => simp [evalOrder]
+    | some ix => simp [evalOrder]; exact (hidx ix rfl).1
+  have hlt : ∀ j ∈ evalOrder (o.nPrior.getD lib.length) idx, j < lib.length := by
+    cases idx with
+    | none => intro j hj; simp [evalOrder] at hj; omega
+    | some ix => intro j hj; exact (hidx ix rfl).2 j (List.mem_of_mem_take hj)
+  obtain ⟨evRows, hev⟩ := gather_isSome_of_lt hlt
+  have hel : evRows.length = o.nPrior.getD lib.length := by rw [gather_length hev, hol]
+  obtain ⟨out, hout⟩ := assemble_isSome (ρ := ρ) (lib := lib)
+    (order := evalOrder (o.nPrior.getD lib.length) idx) (lls := evRows.map (fun r => llf r.nonlin))
+    (good := truncate o.maxPost (goodPos expf (evRows.map (fun r => llf r.nonlin)) uu)) o.nLinear
+    (by
+      intro p hp
+      have := (goodPos_lt expf _ _ p (mem_of_mem_truncate hp)).1
+      simpa [hol, hel] using this)
+    hlt (by simp [hol, hel])
+  refine ⟨out, ?_⟩
+  unfold rejectionSample
+  simp [Nat.not_lt.mpr hn, hev, hol, hu, hel, hout]
+
+end Generic
+
+/-! ### with a lawful order -/
+section Ordered
+variable {α ρ : Type} [Field α] [LinearOrder α]
+
+/-- the normaliser really is the maximum of the evaluated likelihoods -/
+theorem max_is_max {lls : List α} {m : α} (h : maxOf lls = some m) : (∀ l ∈ lls, l ≤ m) ∧ m ∈ lls :=
+  maxOf_spec h
+
+/-- The best sample always survives: with `expf 0 = 1` and every uniform `< 1`, **every** position holding the
+maximum likelihood is accepted. -/
+theorem best_always_survives (expf : α → α) (h0 : expf 0 = 1) (lls uu : List α) (hlen : uu.length = lls.length)
+    (hu : ∀ u ∈ uu, u < 1) (m : α) (hm : maxOf lls = some m) (p : Nat) (hp : lls[p]? = some m) :
+    p ∈ goodPos expf lls uu := by
+  have hpl : p < uu.length := hlen ▸ (List.getElem?_eq_some_iff.mp hp).1
+  refine (accept_iff expf lls uu p).mpr ⟨m, m, uu[p], hm, hp, by simp [hpl], ?_⟩
+  rw [sub_self, h0]
+  exact hu _ (List.getElem_mem hpl)
+
+/-- corollary: a non-empty evaluation always accepts something … -/
+theorem accepted_nonempty (expf : α → α) (h0 : expf 0 = 1) (lls uu : List α) (hlen : uu.length = lls.length)
+    (hu : ∀ u ∈ uu, u < 1) (hne : lls ≠ []) : goodPos expf lls uu ≠ [] := by
+  obtain ⟨m, hm⟩ := maxOf_isSome hne
+  obtain ⟨p, hp⟩ := List.getElem?_of_mem (maxOf_spec hm).2
+  exact List.ne_nil_of_mem (best_always_survives expf h0 lls uu hlen hu m hm p hp)
+
+/-- … so the sampler's result is non-empty (library non-empty, `n_prior_samples ≠ 0`,
+`max_posterior_samples ≠ 0`, `n_linear_samples ≥ 1`). -/
+theorem result_nonempty {expf : α → α} (h0 : expf 0 = 1) {llf : ρ → α} {lib : List (LibRow ρ α)} {o : Opts}
+    {idx : Option (List Nat)} {uu : List α} {out : Out ρ α}
+    (h : rejectionSample expf llf lib o idx uu = .ok out) (hu : ∀ u ∈ uu, u < 1)
+    (hN : 0 < o.nPrior.getD lib.length) (hk : o.maxPost ≠ some 0) (hl : 0 < o.nLinear) :
+    out.rows ≠ [] := by
+  obtain ⟨hg, hlen, _⟩ := sample_uses_rule h
+  obtain ⟨⟨recs, hrecs, hrows⟩, hfull, _⟩ := rows_are_library_rows h
+  obtain ⟨_, _, _, _, hel, _⟩ := truncation_first_accepted h
+  have hne : out.allLls ≠ [] := by
+    intro hnil
+    have : out.evalRows.length = out.allLls.length := by
+      obtain ⟨_, _, hgath⟩ := sample_uses_rule h
+      exact (gather_length hgath).symm
+    rw [hnil, hel] at this
+    simp at this; omega
+  have hacc := accepted_nonempty expf h0 out.allLls uu hlen hu hne
+  have hgood : out.good ≠ [] := by
+    rw [hg]
+    cases hmp : o.maxPost with
+    | none => exact hacc
+    | some k =>
+      have : k ≠ 0 := fun hk0 => hk (by rw [hmp, hk0])
+      simp only [truncate]
+      intro hnil
+      rcases List.take_eq_nil_iff.mp hnil with h | h
+      · exact this h
+      · exact hacc h
+  have hfl : out.full ≠ [] := by
+    intro hnil
+    have := gather_length hfull
+    rw [hnil] at this
+    exact hgood (List.length_eq_zero_iff.mp this.symm)
+  have hrl : recs ≠ [] := by
+    intro hnil
+    have := gather_length hrecs
+    rw [hnil] at this
+    exact hfl (List.length_eq_zero_iff.mp this.symm)
+  rw [hrows]
+  intro hnil
+  rw [rep_eq_nil_iff hl] at hnil
+  exact hrl (List.map_eq_nil_iff.mp hnil)
+
+end Ordered
+
+/-! ### probability of survival (ℝ, Lebesgue measure of the acceptance interval) -/
+section Probability
+open MeasureTheory
+
+/-- the threshold the code computes from the two likelihoods: `exp(ln L_i − ln L_max)`, with `exp(−∞) = 0` -/
+noncomputable def threshold (Li Lmax : ℝ) : ℝ :=
+  if Li = 0 then 0 else Real.exp (Real.log Li - Real.log Lmax)
+
+theorem threshold_eq_ratio (Li Lmax : ℝ) (h0 : 0 ≤ Li) (hpos : 0 < Lmax) : threshold Li Lmax = Li / Lmax := by
+  unfold threshold
+  split
+  · rename_i h; simp [h]
+  · rename_i h
+    have hLi : 0 < Li := lt_of_le_of_ne h0 (Ne.symm h)
+    rw [Real.exp_sub, Real.exp_log hLi, Real.exp_log hpos]
+
+/-- With `u` uniform on `[0,1)`, sample `i` survives with probability exactly `L_i / L_max`:
+the set of draws for which `exp(ll_i − ll_max) > u` has Lebesgue measure `L_i / L_max`
+(`0 ≤ L_i ≤ L_max`, `0 < L_max`; `L_i = 0` is the `−inf` case). -/
+theorem accept_probability (Li Lmax : ℝ) (h0 : 0 ≤ Li) (h1 : Li ≤ Lmax) (hpos : 0 < Lmax) :
+    volume {u : ℝ | u ∈ Set.Ico (0 : ℝ) 1 ∧ u < threshold Li Lmax} = ENNReal.ofReal (Li / Lmax) := by
+  rw [threshold_eq_ratio Li Lmax h0 hpos]
+  have hle : Li / Lmax ≤ 1 := (div_le_one hpos).mpr h1
+  have : {u : ℝ | u ∈ Set.Ico (0 : ℝ) 1 ∧ u < Li / Lmax} = Set.Ico 0 (Li / Lmax) := by
+    ext u
+    simp only [Set.mem_ofPred_eq, Set.mem_Ico]
+    constructor
+    · rintro ⟨⟨hu0, _⟩, hu⟩; exact ⟨hu0, hu⟩
+    · rintro ⟨hu0, hu⟩; exact ⟨⟨hu0, lt_of_lt_of_le hu hle⟩, hu⟩
+  rw [this, Real.volume_Ico]
+  simp
+
+/-- the same in log form, as the code evaluates it: for `ll_i ≤ ll_max` the acceptance set
+`{u ∈ [0,1) | u < exp(ll_i − ll_max)}` has measure `exp ll_i / exp ll_max` -/
+theorem accept_probability_log (lli llmax : ℝ) (h : lli ≤ llmax) :
+    volume {u : ℝ | u ∈ Set.Ico (0 : ℝ) 1 ∧ u < Real.exp (lli - llmax)} =
+      ENNReal.ofReal (Real.exp lli / Real.exp llmax) := by
+  have := accept_probability (Real.exp lli) (Real.exp llmax) (Real.exp_pos _).le (Real.exp_le_exp.mpr h)
+    (Real.exp_pos _)
+  simpa [threshold, (Real.exp_pos lli).ne'] using this
+
+/-- the maximum-likelihood sample survives with probability one -/
+theorem best_survives_with_probability_one (Lmax : ℝ) (hpos : 0 < Lmax) :
+    volume {u : ℝ | u ∈ Set.Ico (0 : ℝ) 1 ∧ u < threshold Lmax Lmax} = 1 := by
+  rw [accept_probability Lmax Lmax hpos.le le_rfl hpos, div_self hpos.ne']
+  simp
+
+end Probability
+
+/-! ### `−inf` likelihoods, concretely over the extended reals -/
+section ExtendedReals
+
+/-- `exp` on the extended reals, `exp(−∞) = 0` -/
+noncomputable def eexp (x : EReal) : EReal := ((EReal.exp x : ENNReal) : EReal)
+
+/-- a `−inf` likelihood (next to anything else) is never accepted when the uniforms are `≥ 0` -/
+theorem neg_inf_never_accepted_ereal (lls uu : List EReal) (hu : ∀ u ∈ uu, 0 ≤ u) (p : Nat)
+    (hp : lls[p]? = some ⊥) : p ∉ goodPos eexp lls uu :=
+  neg_inf_never_accepted eexp ⊥ 0 EReal.bot_sub (by simp [eexp]) lls uu (fun u hu' => not_lt.mpr (hu u hu')) p hp
+
+end ExtendedReals
+
+/-! ### non-vacuity: a concrete run (library of 4 rows, shuffled order, truncation, 2 linear draws; scalars in
+ℤ with thresholds scaled by 10 so that `decide` can evaluate everything) -/
+section Examples
+
+def toyExp (x : ℤ) : ℤ := if x = 0 then 10 else if x = -1 then 5 else 1
+
+def toyLib : List (LibRow String ℤ) := [⟨"a", 5⟩, ⟨"b", 6⟩, ⟨"c", 7⟩, ⟨"d", 8⟩]
+def toyLL : String → ℤ := fun s => if s = "a" then -3 else if s = "b" then -1 else if s = "c" then -2 else -3
+
+example : (match rejectionSample toyExp toyLL toyLib ⟨some 3, some 2, 2⟩ (some [2, 1, 3, 0]) [7, 9, 0] with
+    | .ok out => (out.evalRows, out.good, out.full, out.rows, out.lnPrior, out.lnLike)
+    | .error _ => ([], [], [], [], [], [])) =
+    ([2, 1, 3], [1, 2], [1, 3], ["b", "b", "d", "d"], [6, 6, 8, 8], [-1, -1, -3, -3]) := by decide
+
+example : ∃ out, rejectionSample toyExp toyLL toyLib ⟨none, none, 1⟩ none [5, 5, 5, 5] = .ok out :=
+  rejectionSample_total toyExp toyLL toyLib ⟨none, none, 1⟩ none _ (by decide) (by simp) (by decide)
+
+/-- the hypotheses of `best_always_survives` are satisfiable (ℚ, `expf 0 = 1`, uniforms `< 1`) -/
+example : (fun x : ℚ => if x = 0 then (1 : ℚ) else 0) 0 = 1 ∧ ∀ u ∈ [(1 : ℚ) / 2, 0], u < 1 := by
+  constructor
+  · simp
+  · intro u hu; simp at hu; rcases hu with rfl | rfl <;> norm_num
+
+end Examples
+
+end Reject
